@@ -11,7 +11,7 @@ FORMAT_RULES = (
     "capitalisation,layout,ambiguous.union,convention.not_equal,convention.coalesce,"
     "convention.select_trailing_comma,convention.is_null,jinja.padding,structure.distinct"
 )
-RULESETS = {"all": "all", "layout": "layout", "format": FORMAT_RULES, "core": "core", "capitalisation": "capitalisation"}
+RULESETS = {"all": "all", "layout": "layout", "format": FORMAT_RULES, "core": "core", "capitalisation": "capitalisation", "LT05": "LT05"}
 
 # operator-adjacent inputs, added on purpose (token gluing hazards)
 GLUE = [
@@ -98,6 +98,28 @@ def layout_product_cases(rulesets, group=16):
         for cfg in LAYOUT_PRODUCT:
             for i in range(0, len(base), group):
                 out.append({"k": "strs", "d": "ansi", "rs": rs, "ss": base[i : i + group], "cfg": cfg})
+    return out
+
+
+def lt05_product_cases(rulesets=("LT05", "all"), group=16):
+    """Multi-line files (every ordered triple of 4 statements, some carrying inline / block comments, long
+    identifiers) x LT05's two comment options x max_line_length {30, 50}: long lines with comments that move
+    when the lines above them are broken, so the fix needs several passes."""
+    import itertools
+
+    stmts = [
+        "SELECT a, b, t.b FROM t;",
+        "SELECT a FROM t; -- a trailing comment here",
+        "SELECT a + b AS x, -- keep me\n    a FROM t;",
+        "SELECT a, b FROM t WHERE a = 1; /* c */",
+    ]
+    files = sorted({long_names("\n".join(tr) + "\n") for tr in itertools.product(stmts, repeat=3)})
+    out = []
+    for rs in rulesets:
+        for icl, icc, mll in itertools.product((False, True), (False, True), (30, 50)):
+            cfg = {"core": {"max_line_length": mll}, "rules": {"layout.long_lines": {"ignore_comment_lines": icl, "ignore_comment_clauses": icc}}}
+            for i in range(0, len(files), group):
+                out.append({"k": "strs", "d": "ansi", "rs": rs, "ss": files[i : i + group], "cfg": cfg})
     return out
 
 
